@@ -18,6 +18,25 @@ Theorem sets_exec_eq S F G fuel d :
   run fixed S F [] (sdoc_prog fuel d) = run fixed (erase S F) G [] (sdoc_prog fuel d).
 Proof. intros Hok HFG. apply (noninterference (sdoc_prog fuel d) S F G Hok HFG). Qed.
 
+Theorem subscription_eq S F G fuel events d :
+  schema_ok S = true -> subset F G = true ->
+  run fixed S F [] (ssub_prog fuel events d) = run fixed (erase S F) G [] (ssub_prog fuel events d).
+Proof. intros Hok HFG. apply (noninterference (ssub_prog fuel events d) S F G Hok HFG). Qed.
+
+(** plumbing: once a WebSocket connection is initialised, no change of the environment reaches its
+    operations and subscription events *)
+Lemma ws_frozen h : forall env F,
+  (forall st, In st h -> st <> PInit) ->
+  forall o, In o (ws_effective env (Some F) h) -> o = Some F.
+Proof.
+  induction h as [|st r IH]; intros env F Hn o Ho; [contradiction|].
+  assert (Hr : forall st', In st' r -> st' <> PInit) by (intros st' H'; apply Hn; right; exact H').
+  destruct st as [now | |]; cbn [ws_effective] in Ho.
+  - eapply IH; eauto.
+  - exfalso. apply (Hn PInit); [left|]; reflexivity.
+  - destruct Ho as [Ho | Ho]; [symmetry; exact Ho | eapply IH; eauto].
+Qed.
+
 (** ** discipline *)
 Scheme sel_mind := Induction for sel Sort Prop
   with sels_mind := Induction for sels Sort Prop.
